@@ -308,6 +308,10 @@ CHECK_DEADLOCK FALSE
                          "offset 0 / mid / end; plus random keys of sampled (quick) or every (thorough) length 2..256 from the cross-checked harness builder; "
                          "reported data judged by TLC (checksum relation, unmask algebra, completeness); distinct = scenario x container x position")
     ctx.exhaustive = not q
+    # scanning generators resumed after the caller moved the file handle (Resume.tla)
+    from vt.checks import xresume
+
+    xresume.resume_part(ctx, "C17")
     # history freedom of the functions of their input behind this property (Pure.tla)
     from vt.checks import xpure
 
